@@ -131,6 +131,8 @@ var plans = map[string]Plan{
 		Level: "translation_validation",
 		Runs: []Run{
 			{Test: "^TestProps$/^lockstep$", Checks: checks(1500, 15000), Shards: shards(6, 16), Timeout: tmo(15*time.Minute, 90*time.Minute)},
+			// opcode-exhaustive sweep: quick = one data point of every opcode x size x R x ports stratum, thorough = the whole grid
+			{Test: "^TestSweep$", NoRapid: true, Shards: shards(6, 16), Timeout: tmo(15*time.Minute, 90*time.Minute)},
 		},
 		Assumptions: []string{
 			"A1: the generated Verilog is executed by /verif's 2-state interpreter with power-up zero; A2: intra-assignment delays (<= #1) are ordinary non-blocking assignments, the harness owns the clock",
